@@ -1,13 +1,108 @@
 //! Property checks.
+pub mod c01;
+pub mod c18;
+pub mod c19;
+pub mod common;
+
 pub fn run(id: &str, tier: &str) -> i32 {
+    let st = crate::selftest::run(false);
+    if st != 0 {
+        return st;
+    }
     match id {
+        "C01" => c01::run(tier),
+        "C18" => c18::run(tier),
+        "C19" => c19::run(tier),
         _ => {
             eprintln!("unknown property {}", id);
-            let _ = tier;
             2
         }
     }
 }
-pub fn replay(_path: &str) -> i32 {
-    2
+fn hist_def(id: &str) -> Option<common::HistProp> {
+    match id {
+        "C01" => Some(c01::def()),
+        _ => None,
+    }
+}
+
+pub fn replay(path: &str) -> i32 {
+    let s = match std::fs::read_to_string(path) {
+        Ok(s) => s,
+        Err(e) => {
+            eprintln!("cannot read {}: {}", path, e);
+            return 2;
+        }
+    };
+    let v: serde_json::Value = match serde_json::from_str(&s) {
+        Ok(v) => v,
+        Err(e) => {
+            eprintln!("cannot parse {}: {}", path, e);
+            return 2;
+        }
+    };
+    let id = v["property"].as_str().unwrap_or("");
+    let scenario = v["scenario"].as_str().unwrap_or("");
+    println!("property {} signature {}", id, v["signature"].as_str().unwrap_or(""));
+    if scenario.starts_with("probe/") {
+        return match run_probe(&scenario[6..]) {
+            ProbeOutcome::Ok => {
+                println!("no violation on replay");
+                0
+            }
+            ProbeOutcome::Failed(m) => {
+                println!("VIOLATION property={} {}", id, m);
+                1
+            }
+        };
+    }
+    if let Some(inp) = v.get("input").filter(|x| !x.is_null()) {
+        return replay_input(id, inp);
+    }
+    let hist: Vec<crate::world::Op> = v["history"].as_array().map(|a| a.iter().filter_map(crate::world::Op::from_json).collect()).unwrap_or_default();
+    match hist_def(id) {
+        Some(d) => common::replay_hist(&d, scenario, &hist),
+        None => {
+            eprintln!("no history replay for {}", id);
+            2
+        }
+    }
+}
+
+fn replay_input(id: &str, _inp: &serde_json::Value) -> i32 {
+    match id {
+        "C18" => c18::replay_input(_inp),
+        "C19" => c19::replay_input(_inp),
+        _ => {
+            eprintln!("no input replay for {}", id);
+            2
+        }
+    }
+}
+
+/// Probes run in a child process because the failure they look for aborts the
+/// process (stack overflow) instead of unwinding.
+pub fn probe(name: &str) -> i32 {
+    match name {
+        "eio" => c01::probe_eio(),
+        _ => 2,
+    }
+}
+
+pub enum ProbeOutcome {
+    Ok,
+    Failed(String),
+}
+
+pub fn run_probe(name: &str) -> ProbeOutcome {
+    let exe = std::env::current_exe().expect("current_exe");
+    match std::process::Command::new(exe).arg("--probe").arg(name).output() {
+        Ok(o) if o.status.success() => ProbeOutcome::Ok,
+        Ok(o) => ProbeOutcome::Failed(format!(
+            "child process ended with {:?}; stderr: {}",
+            o.status,
+            String::from_utf8_lossy(&o.stderr).lines().rev().take(3).collect::<Vec<_>>().join(" | ")
+        )),
+        Err(e) => crate::engine::machinery_fail(&format!("cannot spawn probe: {}", e)),
+    }
 }
